@@ -48,7 +48,9 @@ def run(ctx):
                     ctx, b, ["--mode", mode, "--seed", ctx.seed], start, cnt, timeout=1800,
                     tag=f"udp-{mode}", crash_key=_crash_key)))
     suspects = set()
-    for b, mode, rrs in vf.run_many(ctx, jobs):
+    # the histories are latency-bound (stop-and-wait round trips, 1 s GC ticks), a process uses a fraction
+    # of a core: run more processes than cores
+    for b, mode, rrs in vf.run_many(ctx, jobs, workers=min(32, 2 * vf.NCPU)):
         for rr in rrs:
             ctx.ingest(rr, where=f"({mode}, {rr.flavor})")
             if getattr(rr, "bad", None):
